@@ -5,6 +5,7 @@ INVARIANT InvInterruptible
 INVARIANT InvEveryCallback
 INVARIANT InvThird
 INVARIANT InvExported
+INVARIANT InvAfterTeardown
 INVARIANT Emit
 PROPERTY Terminates
 CHECK_DEADLOCK TRUE
